@@ -555,7 +555,8 @@ impl Builder {
 pub fn make_altroot_dir(s: &VfsPath, p: &str, sentinels: bool) -> VfsPath {
     let root = if p.is_empty() { s.clone() } else { s.join(&p[1..]).expect("HARNESS: altroot prefix") };
     root.create_dir_all().expect("HARNESS: create altroot directory");
-    if sentinels {
+    // (with P = the underlying root nothing is outside the altroot, so there is nothing to plant)
+    if sentinels && !p.is_empty() {
         let sdir = s.join(&SENTINEL_DIR[1..]).unwrap();
         let _ = sdir.create_dir();
         let _ = sdir.join("f").unwrap().write_file(b"sentinel");
